@@ -2,7 +2,7 @@
 and confirm it independently: demo fails with the change, passes without it (in a second scratch worktree)."""
 import json, os, shutil, subprocess, sys
 pid, sid = sys.argv[1], sys.argv[2]
-wt = f"/tmp/wt-{pid}"
+wt = os.environ.get("SEED_WT", f"/tmp/wt-{pid}")
 dst = f"/verif/seeded/{sid}"
 os.makedirs(dst, exist_ok=True)
 diff = subprocess.run(["git", "-C", wt, "diff", "--", "han"], capture_output=True, text=True).stdout
